@@ -303,7 +303,7 @@ func runC05(c *Ctx) {
 		"Not decided: that the mutators jointly preserve the invariant over all histories (an inductive argument), quiescent-point claims."
 	r.Rule("who-writes", "table and link fields are written only by the table mutators", 8)
 	r.Rule("locked", "table mutations hold the session mutex for writing", 7)
-	r.Rule("pairing", "creation and deletion keep index, link and list together", 17)
+	r.Rule("pairing", "creation and deletion keep index, link and list together", 18)
 	r.Rule("online", "MAC entry online flag follows its hosts", 2)
 	runC05Holders(c)
 	// unlink removes the host found from the MAC entry's list and no other (a removal that drops the hosts after it
@@ -315,6 +315,14 @@ func runC05(c *Ctx) {
 	} else {
 		r.Fatal("MACEntry.unlink not found")
 	}
+	// MACTable.delete removes the entry found and no other (the third removal from a slice in the tables)
+	if dl := c.P.Method("", "MACTable", "delete"); dl != nil {
+		checkSliceRemoval(c, "pairing", "pairing MACTable.delete removes the entry found and no other", dl, "recv.Table", func(P string, _ []Guard) bool {
+			return strings.Contains(P, "(packet.MACTable).findMAC(recv,arg0)#1")
+		})
+	} else {
+		r.Fatal("MACTable.delete not found")
+	}
 	// unlinking a host and removing it from the index go together, wherever it is done: every call of MACEntry.unlink is
 	// followed, on every path to a return, by a delete from the host index (a host taken off its MAC entry's list only -
 	// to cap the list, say - stays indexed and belongs to no MAC entry)
@@ -322,21 +330,30 @@ func runC05(c *Ctx) {
 		kgul := core.NewKeyGen()
 		for _, site := range callsIn(fn, nameIs("unlink")) {
 			ins := site.(ssa.Instruction)
-			okAll, exit := mustPass(ins, func(j ssa.Instruction) bool {
+			isIdxDel := func(j ssa.Instruction) bool {
 				cl, isCall := j.(*ssa.Call)
 				if !isCall {
 					return false
 				}
 				b, isB := cl.Call.Value.(*ssa.Builtin)
 				return isB && b.Name() == "delete" && len(cl.Call.Args) == 2 && strings.HasSuffix(norm(cl.Call.Args[0]), ".HostTable.Table")
-			})
+			}
+			okAll, exit := mustPass(ins, isIdxDel)
+			if !okAll {
+				// or the index entry went first: a delete from the index dominates the unlink
+				core.EachInstr(fn, func(j ssa.Instruction) {
+					if isIdxDel(j) && core.InstrDominates(j, ins) {
+						okAll = true
+					}
+				})
+			}
 			st, det := core.Proved, ""
 			if !okAll {
 				st = core.Violated
 				det = core.FuncName(fn) + " unlinks a host from its MAC entry and can return at " + c.P.Pos(core.PosOf(exit)) + " without deleting it from the host index: the host stays indexed under its IP and points at a MAC entry that no longer lists it"
 			}
 			r.Add(core.Obligation{Rule: "pairing", Key: strings.TrimSuffix(kgul.Key("pairing unlink is followed by removal from the index in "+core.FuncName(fn)), "#0"), Func: core.FuncName(fn), Pos: c.P.Pos(core.PosOf(ins)), Status: st,
-				Basis: "every path from unlink to a return passes delete(HostTable.Table, ip)", Detail: det})
+				Basis: "every path from unlink to a return passes delete(HostTable.Table, ip), or the delete dominates the unlink", Detail: det})
 		}
 	}
 	// one key discipline for the host index: every lookup, insertion and deletion uses the address as it is (or every one
